@@ -964,7 +964,11 @@ func (e *Env) call(x *ECall) Val {
 		if len(as) == 0 {
 			return Val{T: x.Fn, S: f.res}
 		}
-		return Val{T: sx(x.Fn, as...), S: f.res}
+		rv := Val{T: sx(x.Fn, as...), S: f.res}
+		if tn, ok := g.P.cs.SpecTypes[x.Fn]; ok {
+			rv.G = g.P.typeByName(tn)
+		}
+		return rv
 	}
 	e.fail("unknown function %s in contract", x.Fn)
 	return Val{}
@@ -1009,6 +1013,13 @@ func (e *Env) modLocs(x Expr) []modLoc {
 				out = append(out, modLoc{heap: h.name, sort: h.sort, g: h.g})
 			}
 			return out
+		case "allghost":
+			gn := x.Args[0].(*EStr).V
+			gs, ok := g.P.cs.Ghost[gn]
+			if !ok {
+				e.fail("unknown ghost heap %s", gn)
+			}
+			return []modLoc{{heap: "Gh." + gn, sort: gs}}
 		case "allfield":
 			// one field of every object of a struct type
 			tn := x.Args[0].(*EStr).V
@@ -1266,7 +1277,10 @@ func (g *Gen) resolveCallee(c *ssa.CallCommon) calleeInfo {
 		ci.ct = g.P.contractFor(ci.key)
 		return ci
 	}
-	ci.key = "<dynamic " + typeKey(c.Value.Type()) + ">"
+	// call of a function value: a contract may be given for the function type
+	// ("dyn:" + the type without spaces), e.g. dyn:func(tss.Round)*tss.Error
+	ci.key = "dyn:" + strings.ReplaceAll(typeKey(c.Value.Type()), " ", "")
+	ci.ct = g.P.contractFor(ci.key)
 	return ci
 }
 
